@@ -453,11 +453,17 @@ where
             Some(left) => left.op.prio < op.op.prio || left.idx == op.idx,
         }
     };
+    // a literal that is consumed earlier by a higher-priority operator on its left cannot be
+    // pre-computed, hence, increasing the priority would only block the next literal
+    let left_literal_is_free = |bin_op_idx: usize| {
+        bin_op_idx == 0 || bin_ops[bin_op_idx - 1].op.prio <= bin_ops[bin_op_idx].op.prio
+    };
     let prio_increase =
         |bin_op_node_idx: usize| match (&nodes[bin_op_node_idx], &nodes[bin_op_node_idx + 1]) {
             (DeepNode::Num(_), DeepNode::Num(_))
                 if bin_ops[bin_op_node_idx].op.is_commutative
-                    && regrouping_is_invisible(bin_op_node_idx) =>
+                    && regrouping_is_invisible(bin_op_node_idx)
+                    && left_literal_is_free(bin_op_node_idx) =>
             {
                 let prio_inc = 5;
                 &bin_ops[bin_op_node_idx].op.prio * 10 + prio_inc
@@ -665,15 +671,9 @@ where
                         }
                     }
                     used_prio_indices.push(bin_op_idx);
-                } else if num_idx > 0 && num_idx < priorities.len() - 1 {
-                    if already_declined[num_idx + 1]
-                        && priorities[num_idx + 1] > priorities[num_idx]
-                    {
-                        already_declined[num_idx] = true;
-                    }
-                    if already_declined[num_idx] && priorities[num_idx] > priorities[num_idx + 1] {
-                        already_declined[num_idx + 1] = true;
-                    }
+                } else {
+                    already_declined[num_idx] = true;
+                    already_declined[num_idx + 1] = true;
                 }
             } else {
                 already_declined[num_idx] = true;
